@@ -3,11 +3,11 @@
 
 usage: tools/seed_try.py <seed-dir> <property-id> [more property ids to run]
   <seed-dir> contains patch.diff and demo.py (and NOTES.md).
-Steps (all against /repo itself, which is restored afterwards):
+Steps (default: on an exported copy of /repo HEAD under /tmp, removed afterwards; with --in-place: in /repo itself, restored afterwards):
   1. demo on the clean tree must exit 0
   2. git apply patch; demo must exit non-zero; the pinned test suite must still give 558 passed / 68 failed
-  3. run ./check <id> --no-evidence for each property id and record exit code + VIOLATION lines
-  4. git checkout -- . (and verify the tree is clean)
+  3. run ./check <id> --no-evidence [--repo <copy>] for each property id and record exit code + VIOLATION lines
+  4. remove the copy (in place: git reset --hard, and verify the tree is clean)
 Prints a JSON summary.
 """
 import json
@@ -29,7 +29,18 @@ def sh(cmd, cwd=None, timeout=900, env=None):
 
 
 def main() -> int:
-    seed, props = sys.argv[1], sys.argv[2:]
+    args = [a for a in sys.argv[1:] if a != "--in-place"]
+    in_place = "--in-place" in sys.argv
+    seed, props = os.path.abspath(args[0]), args[1:]
+    global REPO
+    export = None
+    if not in_place:
+        export = tempfile.mkdtemp(prefix="seedrepo-")
+        rc, o = sh(f"git -C /repo archive HEAD | tar -x -C {export} && cd {export} && git init -q && git add -A && git -c user.email=x@x -c user.name=x commit -qm base", timeout=300)
+        if rc != 0:
+            print("export failed", o[-300:])
+            return 2
+        REPO = export
     patch = os.path.join(seed, "patch.diff")
     demo = os.path.join(seed, "demo.py")
     out = {"seed": seed, "properties": props}
@@ -47,6 +58,8 @@ def main() -> int:
         if rc != 0:
             out["apply_err"] = o[-400:]
             print(json.dumps(out, indent=1))
+            if export:
+                sh(f"rm -rf {export}")
             return 1
         rc, o = sh(f"PYTHONPATH={REPO} /venv/bin/python {demo}", cwd=REPO, timeout=600)
         out["demo_patched_rc"] = rc
@@ -55,7 +68,7 @@ def main() -> int:
         out["suite"] = o.strip()
         out["checks"] = {}
         for p in props:
-            rc, o = sh(f"timeout 600 ./check {p} --no-evidence --out {tmp}", cwd=VERIF, timeout=700)
+            rc, o = sh(f"timeout 600 ./check {p} --no-evidence --out {tmp} --repo {REPO}", cwd=VERIF, timeout=700)
             lines = [l for l in o.splitlines() if l.startswith("  [") or l.startswith("ANALYSIS-ERROR") or l.startswith("VIOLATION")]
             out["checks"][p] = {"exit": rc, "lines": [l[:400] for l in lines if not l.startswith("VIOLATION")][:4]}
     finally:
@@ -63,6 +76,10 @@ def main() -> int:
         sh(f"rm -rf {tmp}")
     rc, o = sh("git status --porcelain", cwd=REPO)
     out["repo_clean_after"] = not o.strip()
+    if export:
+        sh(f"rm -rf {export}")
+    rc, o = sh("git status --porcelain", cwd="/repo")
+    out["repo_clean_after"] = out["repo_clean_after"] and not o.strip()
     print(json.dumps(out, indent=1, ensure_ascii=False))
     return 0
 
